@@ -131,6 +131,16 @@ def conversion_scope(ctx, py: PyRepo):
     for n in ast.walk(init):
         if isinstance(n, ast.AnnAssign) and isinstance(n.target, ast.Attribute) and ast.unparse(n.annotation).startswith('dict['):
             tables[n.target.attr] = n
+    # one object handed out under several keys: `dict.fromkeys(keys, {})` / `[[]] * n` store the SAME mutable table everywhere, so
+    # the name spaces the allocators keep apart (element / set / sort / pattern variables) become one
+    shared = [n for n in ast.walk(ci.node) if isinstance(n, ast.Call) and isinstance(n.func, ast.Attribute) and n.func.attr == 'fromkeys'
+              and len(n.args) == 2 and isinstance(n.args[1], (ast.Dict, ast.List, ast.Set, ast.Call))
+              and not (isinstance(n.args[1], ast.Call) and ast.unparse(n.args[1].func) in ('int', 'str', 'tuple', 'frozenset', 'bool', 'float'))]
+    shared += [n for n in ast.walk(ci.node) if isinstance(n, ast.BinOp) and isinstance(n.op, ast.Mult) and isinstance(n.left, ast.List)
+               and any(isinstance(x, (ast.Dict, ast.List, ast.Set)) for x in n.left.elts)]
+    ctx.ob('scope-allocator', 'tables-are-distinct-objects', not shared,
+           'ConvertionScope builds its variable tables with `' + (ast.unparse(shared[0])[:70] if shared else '') + '`: every key gets the '
+           'same mutable table, so two kinds of variable with the same name share one metavariable', py.where(SEM, shared[0]) if shared else where)
     ctx.require(len(tables) >= 3, f'ConvertionScope: expected the variable tables, found {sorted(tables)}')
     bases = {}
     for mname, fn in ci.methods.items():
